@@ -1,6 +1,6 @@
 (* C05 — block-wise client.  Executable model of
      aiocoap/protocol.py  BlockwiseRequest._run (875-1049, the Block1 loop) and
-                          BlockwiseRequest._complete_by_requesting_block2 (1081-1130),
+                          BlockwiseRequest._complete_by_requesting_block2 (1081-1144),
      aiocoap/message.py   Message._append_response_block (474-495), _generate_next_block2_request (497-525),
    over the block arithmetic that is TRANSLATED from source (Gen/block_kernels.v: _extract_block and the BlockwiseTuple methods).
    The client is a machine run against an abstract server [serve : S -> request -> S * sresult]; the scripted server
@@ -113,7 +113,7 @@ Section Client.
   Context {S : Type}.
   Variable serve : S -> request -> S * sresult.
 
-  (* protocol.py:1100-1130: the while True loop of _complete_by_requesting_block2 *)
+  (* protocol.py:1113-1144: the while True loop of _complete_by_requesting_block2 *)
   Fixpoint block2_loop (fuel : nat) (s : S) (request_to_repeat : request) (assembled : response) (mbse : Z)
     : S * list request * outcome :=
     match fuel with
@@ -127,12 +127,12 @@ Section Client.
         | SFail => (s1, [rq], Err NetworkError)
         | SResp last_response =>
           match rs_block2 last_response with
-          | None => (s1, [rq], Done last_response)                                      (* 1110-1114 *)
+          | None => (s1, [rq], Done last_response)                                      (* 1123-1128 *)
           | Some block2 =>
             match append_response_block assembled last_response with
-            | Raise e => (s1, [rq], Err e)                                               (* 1123-1127 *)
+            | Raise e => (s1, [rq], Err e)                                               (* 1136-1141 *)
             | Ok assembled' =>
-              if negb (bt_more block2) then (s1, [rq], Done assembled')                  (* 1129-1130 *)
+              if negb (bt_more block2) then (s1, [rq], Done assembled')                  (* 1143-1144 *)
               else let '(s2, tr, o) := block2_loop f s1 request_to_repeat assembled' mbse in (s2, rq :: tr, o)
             end
           end
@@ -140,9 +140,20 @@ Section Client.
       end
     end.
 
-  (* protocol.py:1081-1099 *)
+  (* protocol.py:1087-1099: a first response that names a later block is refused unless the application itself asked for a later block *)
+  Definition unexpected_first_block (request_to_repeat : request) (initial_response : response) : bool :=
+    match rs_block2 initial_response with
+    | None => false
+    | Some block2 =>
+      negb (bt_num block2 =? 0) &&
+      match rq_block2 request_to_repeat with None => true | Some rb => bt_num rb =? 0 end
+    end.
+
+  (* protocol.py:1081-1118 *)
   Definition complete_by_requesting_block2 (fuel : nat) (s : S) (request_to_repeat : request) (initial_response : response) (mbse : Z)
     : S * list request * outcome :=
+    if unexpected_first_block request_to_repeat initial_response then (s, [], Err UnexpectedBlock2)    (* 1087-1099 *)
+    else
     match rs_block2 initial_response with
     | None => (s, [], Done initial_response)
     | Some block2 =>
